@@ -191,6 +191,8 @@ pub enum UAir {
     Mul { degree: u64, rows: usize, reps: usize },
     /// two periodic columns (periods 2 and 4): y = x·p0 + p1 on every row
     Periodic,
+    /// a + b = c on every row, declared without next-row access (no `trace_next` opening)
+    AddNoNext,
 }
 
 pub const PERIODIC_COLS: [&[u64]; 2] = [&[3, 5], &[1, 2, 3, 4]];
@@ -217,6 +219,12 @@ pub fn periodic_trace<F: Field>(rows: usize) -> RowMajorMatrix<F> {
 }
 
 impl<F: Field> BaseAir<F> for UAir {
+    fn main_next_row_columns(&self) -> Vec<usize> {
+        match self {
+            UAir::AddNoNext => vec![],
+            _ => (0..<Self as BaseAir<F>>::width(self)).collect(),
+        }
+    }
     fn num_periodic_columns(&self) -> usize {
         match self {
             UAir::Periodic => 2,
@@ -233,24 +241,25 @@ impl<F: Field> BaseAir<F> for UAir {
     fn width(&self) -> usize {
         match self {
             UAir::Fib | UAir::Periodic => 2,
+            UAir::AddNoNext => 3,
             UAir::Mul { reps, .. } => *reps,
         }
     }
     fn num_public_values(&self) -> usize {
         match self {
             UAir::Fib => 3,
-            UAir::Mul { .. } | UAir::Periodic => 0,
+            UAir::Mul { .. } | UAir::Periodic | UAir::AddNoNext => 0,
         }
     }
     fn preprocessed_width(&self) -> usize {
         match self {
-            UAir::Fib | UAir::Periodic => 0,
+            UAir::Fib | UAir::Periodic | UAir::AddNoNext => 0,
             UAir::Mul { reps, .. } => reps * 2,
         }
     }
     fn preprocessed_trace(&self) -> Option<RowMajorMatrix<F>> {
         match self {
-            UAir::Fib | UAir::Periodic => None,
+            UAir::Fib | UAir::Periodic | UAir::AddNoNext => None,
             UAir::Mul { degree, rows, reps } => Some(mul_traces::<F>(*degree, *rows, *reps).1),
         }
     }
@@ -265,6 +274,7 @@ where
             UAir::Fib => eval_fib(builder),
             UAir::Mul { degree, reps, .. } => eval_mul(builder, *degree, *reps),
             UAir::Periodic => eval_periodic(builder),
+            UAir::AddNoNext => eval_add(builder),
         }
     }
 }
@@ -403,5 +413,6 @@ pub fn uair_instance<F: PrimeField64>(air: &UAir, rows: usize) -> (RowMajorMatri
         ),
         UAir::Mul { degree, rows: r, reps } => (mul_traces::<F>(*degree, *r, *reps).0, vec![]),
         UAir::Periodic => (periodic_trace::<F>(rows), vec![]),
+        UAir::AddNoNext => (add_trace::<F>(rows, 0), vec![]),
     }
 }
